@@ -287,6 +287,17 @@ def _exh_shard(arg):
 # ------------------------------------------------------------ histories ----
 BAD_KEYS = ["1", 1.5, None, (1, 2), b"\x01"]
 BAD_VALUES = [1.5, "1", None, b"\x01", [1]]
+
+
+class _NoTruth:
+    """An object whose truth value cannot be computed (numpy arrays with several elements, pandas.NA behave so)."""
+    def __bool__(self):
+        raise ValueError("truth value is ambiguous")
+
+
+class _NoLen:
+    def __len__(self):
+        raise TypeError("broken sized object")
 NON_FRAMES = [5, None, "ab", b"\x01\x02", [1, 0]]
 
 
@@ -308,6 +319,7 @@ def ops_strategy():
                   st.sampled_from(["-1", "w", "w+k", "-k"]), sel),
         st.tuples(st.just("bad_step"), sel, sel, st.sampled_from([2, -1, 0, 3])),
         st.tuples(st.just("bad_key"), sel, st.integers(0, len(BAD_KEYS) - 1), st.booleans()),
+        st.tuples(st.just("bit_no_truth"), sel, sel, st.booleans()),
         st.tuples(st.just("alike_key"), sel, sel, sel, st.sampled_from(["float", "fraction", "decimal", "complex"]),
                   st.sampled_from(["hi", "lo", "both", "bit"]), st.booleans()),
         st.tuples(st.just("bad_value"), sel, sel, sel, st.sampled_from(["over", "neg", "type"]),
@@ -524,6 +536,21 @@ def _interp(ops):
                     def fns():
                         f[ka:kb] = 0
                     expect_raise(fns, FAMILY, f, m, out, where, "look-alike-index")
+            elif kind == "bit_no_truth":
+                # a single-bit write whose value has no truth value: it raises, and the frame is what it was
+                f, m, _ = pick(op[1])
+                i = op[2] % m.w
+                obj = _NoTruth() if op[3] else _NoLen()
+                def fnt():
+                    f[i] = obj
+                try:
+                    fnt()
+                    out.append(("C05:accepted:bit-value-without-truth", "%s: returned instead of raising" % where))
+                except Exception:  # noqa - whatever the value raised comes out
+                    pass
+                quick_agree(f, m, out, where + " (after the failed bit write)")
+                if f[i] is not m.bits[i]:
+                    out.append(("C05:failed-write-changed-frame", "%s: bit %d is %r, model %r" % (where, i, f[i], m.bits[i])))
             elif kind == "bad_value":
                 f, m, _ = pick(op[1])
                 a, b = op[2] % m.w, op[3] % m.w
